@@ -7,6 +7,9 @@ real code; both produce a canonical trace per run.
 """
 import csv
 import io
+import os
+import shutil
+import tempfile
 import re
 
 import core
@@ -180,8 +183,32 @@ def impl_read(scn, cid, run):
     import plugin_types
 
     del plugin_types.CALL_LOG[:]
-    text = container_text(scn, run["rows"], run.get("fault"))
-    source = io.StringIO(text, newline="") if scn["format"] == "fixed" else io.StringIO(text, newline="")
+    tmp_dir = None
+    if run.get("fault") == "bytes":
+        # undecodable bytes in a file read through its path: a record that starts with two bytes no code page 1252 text contains
+        good = container_text(scn, run["rows"], None).encode("cp1252")
+        lines = good.splitlines(True)
+        at = min(run.get("fault_at", len(lines)), len(lines))
+        blob = b"".join(lines[:at]) + b"\x81\x8d" + b"".join(lines[at:])
+        tmp_dir = tempfile.mkdtemp(prefix="c06-")
+        source = os.path.join(tmp_dir, "data.txt")
+        with open(source, "wb") as f:
+            f.write(blob)
+    else:
+        text = container_text(scn, run["rows"], run.get("fault"))
+        source = io.StringIO(text, newline="")
+    try:
+        return _impl_read(scn, cid, run, source)
+    finally:
+        if tmp_dir is not None:
+            shutil.rmtree(tmp_dir, ignore_errors=True)
+
+
+def _impl_read(scn, cid, run, source):
+    from cutplace import errors, validio
+
+    import plugin_types
+
     events, fin, acc, rej, close = [], "done", "n", "n", "skipped"
     stop = run.get("stop")
     if stop == 0:
@@ -196,7 +223,19 @@ def impl_read(scn, cid, run):
     if run["api"] == "f":
         gen = validio.rows(cid, source, on_error=run["mode"], validate_until=run["limit"])
     else:
-        reader = validio.Reader(cid, source, on_error=run["mode"], validate_until=run["limit"])
+        if run.get("_reader") is not None:
+            # Reader object built before the history started (the run itself still begins with rows())
+            reader, source = run["_reader"]
+        else:
+            reader = validio.Reader(cid, source, on_error=run["mode"], validate_until=run["limit"])
+        if run.get("pre"):
+            # the same Reader object was already used for a pass that was abandoned after `pre` rows
+            first_pass = reader.rows()
+            for _ in range(run["pre"]):
+                next(first_pass, None)
+            del first_pass
+            source.seek(0)
+            del plugin_types.CALL_LOG[:]
         gen = reader.rows()
     raw = list(run["rows"])
     yielded = []
@@ -337,6 +376,11 @@ def run_scenarios(scns):
             results.append((scn, mruns, "decl:" + core.classify_exception(error)))
             continue
         iruns = []
+        for run in scn["runs"]:
+            if run["kind"] == "R" and run.get("early"):
+                from cutplace import validio
+                early_source = io.StringIO(container_text(scn, run["rows"], run.get("fault")), newline="")
+                run["_reader"] = (validio.Reader(cid, early_source, on_error=run["mode"], validate_until=run["limit"]), early_source)
         for run in scn["runs"]:
             if run["kind"] == "R" and run["api"] == "v":
                 iruns.append(impl_validate(scn, cid, run))
